@@ -1061,7 +1061,8 @@ Lemma source_round3 :
   Gen.C18.iterallfnc_breaks = 0 /\ Gen.C18.iterallfnc_calls = ["Iterator"]%string /\
   Gen.C18.ante_declared_before_loop = ["msgs"; "err"]%string /\
   Gen.C18.ante_declared_per_message = ["m"; "ok"; "creator"; "signers"; "signedByCreator"; "grants"; "err";
-                                       "grantsLkUp"; "grantees"; "v"; "found"]%string.
+                                       "grantsLkUp"; "grantees"; "v"; "found"]%string /\
+  Gen.C18.max_nested_depth = 6.
 Proof. vm_compute. repeat split; reflexivity. Qed.
 
 (** ================= 11. round 5: whole transactions through the decorator ================= *)
@@ -1076,10 +1077,21 @@ Proof.
   - destruct (str_valid c); inversion E; subst. reflexivity.
 Qed.
 
-Lemma ante_all s ms : ante s ms = Ok -> forall m, In m ms -> authorised s m = Ok.
+Lemma ante_msgs_all s ms : ante_msgs s ms = Ok -> forall m, In m ms -> authorised s m = Ok.
 Proof.
   induction ms as [|m r IH]; cbn; intros H x Hin; [contradiction|].
   destruct (authorised s m) eqn:E; try discriminate. destruct Hin as [<-|Hin]; auto.
+Qed.
+
+Lemma ante_all s ms : ante s ms = Ok ->
+  forall m, In m ms -> authorised s m = Ok /\ tm_nest m <= Gen.C18.max_nested_depth.
+Proof.
+  unfold ante. destruct (existsb _ ms) eqn:E; [discriminate|]. intros H m Hin.
+  split; [now apply (ante_msgs_all s ms)|].
+  destruct (Z_le_gt_dec (tm_nest m) Gen.C18.max_nested_depth) as [Hle|Hgt]; [exact Hle|].
+  exfalso. assert (Ex : existsb (fun m0 => Gen.C18.max_nested_depth <? tm_nest m0) ms = true).
+  { apply existsb_exists. exists m. split; [exact Hin | apply Z.ltb_lt; lia]. }
+  congruence.
 Qed.
 
 (** a transaction either changes nothing, or every message was authorised by the decorator on the
@@ -1087,7 +1099,7 @@ Qed.
 Theorem deliver_tx_cases s ms :
   (fst (deliver_tx s ms) = s /\ snd (deliver_tx s ms) <> Ok) \/
   (snd (deliver_tx s ms) = Ok /\ fst (deliver_tx s ms) = run s (tx_ops ms) /\
-   forall m, In m ms -> authorised s m = Ok).
+   forall m, In m ms -> authorised s m = Ok /\ tm_nest m <= Gen.C18.max_nested_depth).
 Proof.
   unfold deliver_tx. destruct (ante s ms) eqn:Ea; try (left; cbn; split; [reflexivity | discriminate]).
   unfold atomically. destruct (run_msgs s ms) as [s' o] eqn:Er.
@@ -1106,7 +1118,7 @@ Theorem activation_only_by_licensee_tx_thm : forall (s : state) (ms : list tmsg)
 Proof.
   intros s ms m who Hok Hin Hb.
   destruct (deliver_tx_cases s ms) as [[_ H]|(_ & _ & Ha)]; [contradiction|].
-  specialize (Ha m Hin). unfold authorised in Ha. rewrite Hb in Ha. cbn [tm_creator] in Ha.
+  destruct (Ha m Hin) as [Ha' _]. clear Ha. rename Ha' into Ha. unfold authorised in Ha. rewrite Hb in Ha. cbn [tm_creator] in Ha.
   destruct (signed_by_creator who (tm_signers m)) eqn:E1.
   - left. unfold signed_by_creator in E1. apply andb_true_iff in E1 as [E1 E3]. apply andb_true_iff in E1 as [E1 _].
     apply negb_true_iff in E1. split; [exact E1|].
@@ -1155,11 +1167,16 @@ Qed.
     fee-grantee's go through *)
 Example ex_tx :
   let s := run ex_s0 (firstn 4 ex_ops) in                     (* address 3 holds a licence *)
-  let forged := [ {| tm_signers := [5]; tm_body := TStatus (5, false) |};
-                  {| tm_signers := [5]; tm_body := TOp (Register (3, false)) |} ] in
-  let own := [ {| tm_signers := [5]; tm_body := TStatus (5, false) |};
-               {| tm_signers := [3]; tm_body := TOp (Register (3, false)) |} ] in
+  let forged := [ {| tm_signers := [5]; tm_nest := 0; tm_body := TStatus (5, false) |};
+                  {| tm_signers := [5]; tm_nest := 0; tm_body := TOp (Register (3, false)) |} ] in
+  let own := [ {| tm_signers := [5]; tm_nest := 0; tm_body := TStatus (5, false) |};
+               {| tm_signers := [3]; tm_nest := 0; tm_body := TOp (Register (3, false)) |} ] in
   let s1 := fst (step s (Grant 3 5)) in
+  let deep n := [ {| tm_signers := [5]; tm_nest := n; tm_body := TOp (Register (3, false)) |} ] in
+  let own_deep n := [ {| tm_signers := [3]; tm_nest := n; tm_body := TOp (Register (3, false)) |} ] in
+  deliver_tx s (deep 1) = (s, Err EUnauthorized) /\ deliver_tx s (deep 6) = (s, Err EUnauthorized) /\
+  deliver_tx s (deep 7) = (s, Err EUnauthorized) /\ deliver_tx s (deep 9) = (s, Err EUnauthorized) /\
+  snd (deliver_tx s (own_deep 6)) = Ok /\ deliver_tx s (own_deep 7) = (s, Err EUnauthorized) /\
   deliver_tx s forged = (s, Err EUnauthorized) /\
   snd (deliver_tx s own) = Ok /\ lics (fst (deliver_tx s own)) = [] /\
   snd (deliver_tx s1 forged) = Ok.
